@@ -10,6 +10,8 @@ ROOT = os.path.dirname(HERE)
 DESC = {
  "C01": ("Trace validation: every sequence returned by the formula-based samplers on systematic + seeded random designs (flat and composed) is replayed step by step through the TLA+ Design specification (MCTrace), whose verdict names the failing clause; the trial count and block arithmetic come from Blocks.tla.", "6/C01"),
  "C02": ("Set equality with the specification: IterateSATGen is exhausted; every returned sequence is validated by MCTrace (soundness) and TLC enumerates ALL behaviours of the Design generator and reports each accepted sequence the implementation did not return (MCEnum, completeness); duplicates are counted.", "6/C02"),
+ "C03": ("TLC enumerates the models of the complete compiled formula: DPLL over the trial-sequence variables as a state machine (MCModels over Cnf.tla) and, for every consistent assignment of them, a count of the extensions to the auxiliary variables (must be 1); the models are decoded by the library and checked against Design.tla in both directions (model => valid sequence, valid sequence => model, multiplicity = Mult).", "6/C03"),
+ "C05": ("The complete tree of random draws of RandomGen's first candidate is explored with the real sampler and a scripted random source; RandomLoop.tla replays every path (well-formed tree) and judges the accepted leaves: exactly Mult(seq) accepted candidates per valid sequence, equal probability per solution; accepted set = valid set by MCTrace/MCEnum.", "6/C05"),
  "C04": ("Trace validation of RandomGen output (class and instance, several requested counts) against the Design specification.", "6/C04"),
  "C06": ("RandomGen exhausted under a watchdog: set equality with the specification's valid set (MCTrace + MCEnum), distinctness, and the reported solution count for rejection-free single-round designs.", "6/C06"),
  "C07": ("Both samplers exhausted; TLC (MCAgree) compares the two sets and prints every sequence that is in only one of them; independent of the Design specification.", "6/C07"),
@@ -17,6 +19,10 @@ DESC = {
  "C09": ("Two phases: exhaust to establish (via MCTrace+MCEnum) how many solutions exist, then request 0, 1, avail-1, avail, avail+5 sequences and compare counts with min(requested, available); distinctness up to the specification's multiplicity Mult (weighted uncrossed levels).", "6/C09"),
  "C10": ("Clause lists recorded from combine_cnf_with_requests for every (relation, n, k) up to the bound are judged by TLC: MCGadget enumerates all 2^n assignments and a DPLL counter written in TLA+ (Cnf.tla) decides whether exactly one / no extension to the auxiliary variables exists, against the arithmetic definition of the relation.", "6/C10"),
  "C11": ("Formulas (systematic depth<=1, seeded random depth 2-3 with shared subformulas) are converted by the three real functions; TLC evaluates the formula (Eval) and counts the CNF's extensions for every assignment of the original variables; fresh-variable ranges are checked.", "6/C11"),
+ "C13": ("For every parameter tuple up to the bound each unranking function is called on all indices 0..N-1; the recorded results are replayed into the enumerator machine of Combinatorics.tla, where the arrangement sets are defined declaratively: every result is an arrangement, none repeats, none is missing, N equals the cardinality.", "6/C13"),
+ "C23": ("Weighted designs: quota scaling for crossed factors (CrossOK) and copies-as-distinct-solutions for uncrossed non-derived factors (Design!Mult): both samplers exhausted, each valid name-level sequence must be returned exactly Mult times.", "6/C23"),
+ "C27": ("Bytes written for the solvers, clause lists recovered by the library's two parsers, parsed solver output and the file before/after the blocking clause are judged by byte-level DIMACS readers written in TLA+ (Text.tla, MCText).", "6/C27"),
+ "C28": ("OPB bytes are parsed by Text!ParseOpb and, for all assignments of the variables, pseudo-Boolean satisfaction is compared with the meaning of the clauses and cardinality requests; the appended blocking constraint must exclude exactly the previous solution.", "6/C28"),
  "C12": ("Adder and population-count clause builders for all widths up to the bound: for every input assignment TLC's DPLL finds the unique extension and compares the output bits with the sum (sticky top bit when saturating).", "6/C12"),
  "C17": ("Specification -> code: for every design, sequences returned by the library and their well-formed perturbations (cell changes, swaps, truncation, extension) are labelled by TLC (MCTrace verdict) and by sample_mismatch_experiment; the labels must coincide in both directions.", "6/C17"),
  "C24": ("Each documented law instance is built twice from fresh objects; in Blocks.tla both sides are ONE definition (MultiCrossBlock, Repeat and CrossBlock are defined through Merge), so both exhausted sets are validated/enumerated against the same meaning, and TLC (MCAgree) also compares the two recorded sets directly.", "6/C24"),
@@ -27,6 +33,12 @@ DESC = {
 TECH = {
  "C01": "TLA+ trace validation (TLC, MCTrace over Design.tla)",
  "C02": "TLC exhaustive enumeration of Design.tla behaviours + trace validation (set equality)",
+ "C03": "TLC model enumeration of the compiled formula (DPLL state machine in TLA+) + Design.tla both directions",
+ "C05": "TLC replay of the complete random-draw tree (RandomLoop.tla) + Design.tla for the accepted set",
+ "C13": "TLC trace validation of recorded unranking calls against declarative arrangement sets (Combinatorics.tla)",
+ "C23": "TLC enumeration + trace validation with multiplicities (Design!Mult)",
+ "C27": "TLA+ byte-level DIMACS readers (Text.tla) evaluated by TLC on recorded solver text",
+ "C28": "TLA+ OPB reader + exhaustive assignment enumeration by TLC (MCText)",
  "C04": "TLA+ trace validation (TLC, MCTrace over Design.tla)",
  "C06": "TLC exhaustive enumeration of Design.tla behaviours + trace validation (set equality)",
  "C07": "TLC set comparison of two recorded solution sets (MCAgree)",
